@@ -336,40 +336,41 @@ def stage(o, tier, seed):
 
 
 def _conformance(o, thorough, seed):
-    # stage 1: schedules
-    gen, _ = vlib.gen_schedules(o.pid, FAMILY, "TrackerGen", "TrackerGen.cfg", num=300 if thorough else 20, depth=45, seed=seed,
-                                limit=None)
-    rr = vlib.rng(seed, "grow_tracker/gen")
-    rr.shuffle(gen)
-    gen = gen[:4000 if thorough else 150]
+    # stage 1: schedules (TLC simulation runs in the background while the probe below is executed)
+    bg = ThreadPoolExecutor(max_workers=1)
+    genf = bg.submit(vlib.gen_schedules, o.pid, FAMILY, "TrackerGen", "TrackerGen.cfg", num=300 if thorough else 20, depth=45,
+                     seed=seed, limit=None)
     rnd = random_schedules(seed, 5000 if thorough else 250, thorough)
     # stage 2+3
     # The known finding (a *api.Error is not recognised as beacon-node error) shows up in every schedule in which a fetch of a
-    # duty without prerequisite fails with that error kind.  Two directed probes go through the regular known-finding path
-    # (re-execution, deviation configuration); if they show the finding, the other schedules that carry the trigger are
+    # duty without prerequisite fails with that error kind.  One directed probe goes through the regular known-finding path
+    # (re-execution, deviation configuration); if it shows the finding, the other schedules that carry the trigger are
     # validated against the as-coded table (deviation switched on), otherwise against the contract like everything else.
     kw = dict(chunk=150)
     probes = [[{"ev": "Config", "n": 3, "from": 0, "incl": False, "exempt": []}, call("fetcher", duty(1, t), ["a"], "bnptr"),
                {"ev": "Deadline", "d": duty(1, t)}] for t in ("attester",)]
     vlib.conformance(o, FAMILY, "TrackerTrace", "TrackerTrace.cfg", PKG, probes, tag="trk_probe", dev_cfgs=DEV_CFGS, **kw)
     as_coded = any(fid == FINDING for fid, _ in o.known)
-    allsch = directed_schedules() + gen + rnd
-    trig = [s for s in allsch if triggers(s)]
-    rest = [s for s in allsch if not triggers(s)]
-    vlib.conformance(o, FAMILY, "TrackerTrace", "TrackerTrace.cfg", PKG, rest, tag="trk_main", **kw)
-    vlib.conformance(o, FAMILY, "TrackerTrace", "TrackerTrace_dev_bnptr.cfg" if as_coded else "TrackerTrace.cfg", PKG, trig,
-                     tag="trk_bnptr", **kw)
+    gen, _ = genf.result()
+    bg.shutdown()
+    rr = vlib.rng(seed, "grow_tracker/gen")
+    rr.shuffle(gen)
+    gen = gen[:4000 if thorough else 150]
+    cfgs = {False: ("TrackerTrace.cfg", open(os.path.join(vlib.SPECS, FAMILY, "TrackerTrace.cfg")).read()),
+            True: ("TrackerTrace_dev_bnptr.cfg", open(os.path.join(vlib.SPECS, FAMILY, "TrackerTrace_dev_bnptr.cfg")).read())}
+    vlib.conformance(o, FAMILY, "TrackerTrace", lambda t: cfgs[as_coded and triggers(t)], PKG, directed_schedules() + gen + rnd,
+                     tag="trk_main", **kw)
     # binding negative controls on recorded traces
     tr = vlib.split_traces(vlib.read_ndjson(vlib.workdir(o.pid) + "/trace_trk_main.ndjson"))
     muts = mutators()
-    good = tr[len(directed_schedules()):][:200]
+    good = [t for t in tr[len(directed_schedules()):] if not triggers(t)][:200]
     before = len(o.selftests)
     vlib.binding_selftest(o, FAMILY, "TrackerTrace", "TrackerTrace.cfg", good, muts)
     if len(o.selftests) - before < len(muts) and not o.violations:
         raise vlib.Infra("Tracker binding self-test: some negative control found no applicable trace")
     # vacuity: the runs must have seen failures, successes and participation
     seen = {"failed": 0, "success": 0, "part": 0, "reasons": set()}
-    for tag in ("trk_main", "trk_bnptr"):
+    for tag in ("trk_main",):
         for t in vlib.split_traces(vlib.read_ndjson(vlib.workdir(o.pid) + "/trace_%s.ndjson" % tag)):
             for e in t:
                 for rec in e.get("obs") or []:
